@@ -144,6 +144,9 @@ def _optimise_operator(op):
                 id_leaf[leaf_op_id] = (leaf,)
 
         for leaf in leaves:
+            if leaf[0] is None:
+                # the whole operator is a single leaf (no _OpSum/_OpProd node): nothing to share
+                continue
             parent = nodes[leaf[0]][0]
             attr = left_parser(leaf[1])
             leaf_op = getattr(parent, attr)
